@@ -107,6 +107,15 @@ impl BuildOptimiser {
         self
     }
 
+    /// Verification hook (off unless built with `--cfg packing_verif`): set the finishing
+    /// temperature option directly, including `None`, which is otherwise only reachable through
+    /// the command line parser.
+    #[cfg(packing_verif)]
+    pub fn verif_set_kt_finish(&mut self, kt_finish: Option<f64>) -> &mut Self {
+        self.kt_finish = kt_finish;
+        self
+    }
+
     pub fn build(&self) -> MCOptimiser {
         let kt_ratio = match (self.kt_ratio, self.kt_finish) {
             (Some(ratio), _) => 1. - ratio,
